@@ -476,6 +476,35 @@ def render_fn(sf, item, d, drops, em, canary, take_opts=()):
             if mask[k] and k not in edits:
                 edits[k] = (k + 4, 'self_')
                 drops['D10 mut-self receiver rebound'] = drops.get('D10 mut-self receiver rebound', 0) + 1
+    if 'unenumerate' in opts:
+        # rule D11 (Verus: "assume_specification for a provided trait method" is unsupported, `Iterator::enumerate` has no
+        # vstd specification): `for (IDENT, PAT) in EXPR.enumerate() {` is taken as `for PAT in EXPR {` when IDENT occurs
+        # in the loop body only inside string literals (inline format captures of diagnostics whose arguments rule D3
+        # does not evaluate anyway).  Any other use of IDENT => the rule does not apply => undecided (exit 2).
+        n11 = 0
+        for (kw_i, kw, b_open) in R.find_loops(src, mask, body_open + 1, body_close):
+            if kw != 'for':
+                continue
+            header = src[kw_i:b_open]
+            m11 = re.match(r'for\s*\(\s*([A-Za-z_][A-Za-z0-9_]*)\s*,\s*', header)
+            tail = re.search(r'\.\s*enumerate\s*\(\s*\)\s*$', header)
+            if not m11 or not tail:
+                continue
+            # the `)` closing the outer tuple pattern: the last `)` before the top-level ` in `
+            p_open = kw_i + header.index('(')
+            p_close = R.match_delim(src, mask, p_open)
+            ident = m11.group(1)
+            b_close = R.match_delim(src, mask, b_open)
+            for mm in re.finditer(r'(?<![A-Za-z0-9_])' + re.escape(ident) + r'(?![A-Za-z0-9_])', src[b_open:b_close]):
+                if mask[b_open + mm.start()]:
+                    raise LostAnchor('%s: rule D11 does not apply: the enumerate index `%s` is used outside diagnostics text' % (item.name, ident))
+            edits[p_open] = (kw_i + m11.end(), ' ' * (kw_i + m11.end() - p_open))
+            edits[p_close] = (p_close + 1, ' ')
+            edits[kw_i + tail.start()] = (b_open, blank(src[kw_i + tail.start():b_open]))
+            n11 += 1
+            drops['D11 enumerate index used only in diagnostics dropped'] = drops.get('D11 enumerate index used only in diagnostics dropped', 0) + 1
+        if n11 == 0:
+            raise LostAnchor('%s: option unenumerate but no `for (i, ..) in ...enumerate()` loop' % item.name)
     splices = {}   # offset -> (text, unit_line) inserted *before* the char at offset, on own lines
     inline = {}    # offset -> text inserted inline
     if d:
